@@ -1052,7 +1052,7 @@ Qed.
 
 Lemma inv_step st l : Inv st -> Inv (step n st l).
 Proof.
-  intros HI. unfold step. apply inv_tick. destruct l as [i v|i|i|]; cbn [step0].
+  intros HI. unfold step. apply inv_tick. destruct l as [i v|i|i| |]; cbn [step0]; [| | | |now apply inv_set_thr].
   - destruct (th st i) eqn:Ht; try exact HI. apply inv_invoke; auto. exact I.
   - destruct (th st i) eqn:Ht; try exact HI. apply inv_invoke; auto. exact I.
   - now apply inv_tstep.
